@@ -137,6 +137,9 @@ def rewritten_case(chk, describe, schema_line, classes, v):
            "history": "dump(SIZE_DELIMITED); len(); containers grown in place; dump(SIZE_DELIMITED) again"}
     chk.case(schema_line + "|rewritten|" + bpgen.term(v), True, {"rewritten": bpgen.term(v)[:200]})
     data = s.getvalue()
+    if len(second) <= len(first):
+        chk.fail("bytes-did-not-grow-after-in-place-growth", inp, "first frame body %s, second %s" % (first.hex(), second.hex()))
+        return
     want = ref_encoder._VarintBytes(len(first)) + first + ref_encoder._VarintBytes(len(second)) + second
     if data != want:
         chk.fail("framing-differs-after-in-place-change", inp, "%s vs %s" % (data.hex(), want.hex()))
